@@ -1,6 +1,7 @@
 import Tumfl.Spec.Show
 import Tumfl.Model.Lexer
 import Tumfl.Model.Dump
+import Tumfl.Model.Layout
 /-!
 # Line-protocol driver
 
@@ -77,6 +78,46 @@ def showPyErr : Model.PyErr → String
   | .py k site => s!"py {k} {site}"
   | .fuel => "fuel"
 
+def showPiece : Model.Piece → String
+  | .str s => "S" ++ hexOfText s
+  | .sep .statement => "stmt" | .sep .newline => "newline" | .sep .argument => "arg" | .sep .space => "space"
+  | .sep .dot => "dot" | .sep .indent => "indent" | .sep .deindent => "deindent" | .sep .block => "block"
+
+def showPieces (ps : Model.Pieces) : String := " ".intercalate (ps.map showPiece)
+
+def parseStyle (fs : List String) : Option Model.Style :=
+  match fs with
+  | [a, b, c, d, e, f, g, h, i, j, k, l, m, n, o] => do
+    let sa ← decodeText a
+    let sb ← decodeText b
+    let sc ← decodeText c
+    let se ← decodeText e
+    some { statementSeparator := sa, indentation := sb, argumentSeparator := sc, includeComments := d == "1", commentSep := se,
+           useSingleQuote := f == "1", useCallShorthand := g == "1", removeUnnecessaryChars := h == "1", addAllBrackets := i == "1",
+           addCloseBrackets := j == "1", spaceInTable := k == "1", newlineLimit := l.toNat!, lineWidth := m.toNat!,
+           blockSpacer := n.toNat!, keepSemicolon := o == "1" }
+  | _ => none
+
+/-- every stage of `format` on the model, as one line -/
+def formatStages (sty : Model.Style) (ast : Model.Block) : String :=
+  let ts0 := Model.emit sty ast
+  let stage (name : String) (r : Except Model.PyErr Model.Pieces) (k : Model.Pieces → String) : String :=
+    match r with
+    | .error e => s!"{name}=ERR {showPyErr e}"
+    | .ok ps => s!"{name}={showPieces ps}" ++ k ps
+  s!"emit={showPieces ts0}" ++
+  stage " | remove" (if sty.removeUnnecessaryChars then Model.removeSeparators ts0 else .ok ts0) fun ts1 =>
+  stage " | brackets" (if sty.lineWidth > 0 then Model.indentBrackets ts1 sty else .ok ts1) fun ts2 =>
+  stage " | spacing" (if sty.blockSpacer > 0 then Model.addSpacing ts2 sty else .ok ts2) fun ts3 =>
+  let ts4 := Model.Piece.str ("--".toList ++ sty.commentSep ++ "tumfl".toList) :: Model.Piece.sep .newline :: ts3
+  let ts5 := Model.removeOrphaned ts4
+  s!" | orphans={showPieces ts5}" ++
+  stage " | resolve" (Model.resolveTokens sty ts5) fun ts6 =>
+  stage " | indent" (Model.indentLoop sty.indentation ts6 0 false) fun _ =>
+  match Model.format sty ast with
+  | .ok out => " | text=" ++ hexOfText out
+  | .error e => " | text=ERR " ++ showPyErr e
+
 def handle (line : String) : String :=
   match line.splitOn "\t" with
   | ["refparse", h] =>
@@ -139,6 +180,13 @@ def handle (line : String) : String :=
       match Model.parseText src with
       | .ok (b, hs) => "ok " ++ Model.dumpHints hs ++ " " ++ Model.dumpBlock b
       | .error e => "err " ++ showPyErr e
+  | "mformat" :: h :: styleFields =>
+    match decodeText h, parseStyle styleFields with
+    | some src, some sty =>
+      match Model.parseText src with
+      | .ok (b, _) => "ok " ++ formatStages sty b
+      | .error e => "err " ++ showPyErr e
+    | _, _ => "bad-op"
   | ["numval", h] =>
     match decodeText h with
     | none => "bad-op"
